@@ -808,6 +808,20 @@ def mk_call(fn, args=(), kwargs=()):
                                                                  'numpy.double'):
             kd['dtype'] = Term.of(Atom('builtin', 'int' if 'int' in da.args[0] else 'float'))
             kwargs = tuple(sorted(kd.items(), key=lambda kv: kv[0]))
+    if fn == 'append' and len(args) == 1 and set(dict(kwargs)) == {'values'}:
+        # appending the next grid point to an evenly spaced axis extends the axis
+        sq = as_seq(args[0])
+        if sq is not None:
+            st_, dd_, n_ = sq
+            if (dict(kwargs)['values'] - (st_ + n_ * dd_)).is_zero():
+                return mk_seq(st_, dd_, n_ + 1)
+    if fn == 'concatenate' and len(args) == 1 and not kwargs:
+        # np.concatenate((a, [v]))  ==  np.append(a, v)
+        ta = args[0].single_atom()
+        if ta is not None and ta.kind in ('tuple', 'list') and len(ta.args) == 2:
+            la = ta.args[1].single_atom()
+            if la is not None and la.kind in ('list', 'tuple') and len(la.args) == 1:
+                return mk_call('append', [ta.args[0]], [('values', la.args[0])])
     if fn in ('vstack', 'hstack') and len(args) == 1 and not kwargs:
         # stacking 2-d blocks vertically / 1-d arrays end to end is concatenation along the first axis (rank by attribute)
         r = _elem_rank(args[0])
@@ -1063,6 +1077,25 @@ def mk_sub(base, idx):
                     return v
         if at.kind == 'ite':
             return mk_ite(at.args[0], mk_sub(at.args[1], idx), mk_sub(at.args[2], idx))
+        if at.kind == 'sub' and _pure_newaxis(at.args[1]) and idx.single_atom() is not None and idx.single_atom().kind == 'tuple':
+            # X[:, None][:, :, ::-1]  ==  X[:, None, ::-1]: an index applied after axes were only ADDED is applied in place
+            # (the new axes themselves may only be taken whole)
+            i1 = at.args[1].single_atom()
+            items1 = list(i1.args) if i1 is not None and i1.kind == 'tuple' else [at.args[1]]
+            items2 = list(idx.single_atom().args)
+            if all(x.single_atom() is not None and x.single_atom().kind == 'slice' for x in items2):
+                out_, ok_ = [], True
+                for k_, x1 in enumerate(items1):
+                    x2 = items2[k_] if k_ < len(items2) else None
+                    if _isnone(x1):
+                        if x2 is not None and x2.key != FULL_SLICE_KEY:
+                            ok_ = False
+                        out_.append(x1)
+                    else:
+                        out_.append(x2 if x2 is not None else x1)
+                out_ += items2[len(items1):]
+                if ok_:
+                    return mk_sub(at.args[0], mk_tuple(out_))
         if at.kind == 'sub':
             # (X[a:])[i] == X[a + i]   for a constant a >= 0 and an index i >= 0
             sl = at.args[1].single_atom()
